@@ -547,7 +547,13 @@ func (cfg *Config) varInd(vr Variable, idx syntax.ArithmExpr) (string, bool, err
 			}
 			return strings.Join(strs, " "), vr.IsSet(), nil
 		}
-		val, err := Literal(cfg, idx.(*syntax.Word))
+		w, ok := idx.(*syntax.Word)
+		if !ok {
+			// A subscript like ${a[-1]} or ${a[1+1]} parsed as arithmetic;
+			// assignments ignore such keys, so none can be set.
+			return "", false, nil
+		}
+		val, err := Literal(cfg, w)
 		if err != nil {
 			return "", false, err
 		}
@@ -581,7 +587,11 @@ func (cfg *Config) assignElem(name string, vr Variable, idx syntax.ArithmExpr, v
 		key := "0"
 		if idx != nil {
 			var err error
-			if key, err = Literal(cfg, idx.(*syntax.Word)); err != nil {
+			w, ok := idx.(*syntax.Word)
+			if !ok {
+				return fmt.Errorf("%s: bad array subscript", name)
+			}
+			if key, err = Literal(cfg, w); err != nil {
 				return err
 			}
 		}
